@@ -153,6 +153,10 @@ class Capacities(JSONField):
         :return: self to support call chaining
         """
         for k, v in kwargs.items():
+            if forgiving and k not in self.__dict__:
+                # decoding: a field this version does not know, whatever its value type
+                fl.get_logger().warning(f"Ignoring unknown field {k} of {self.__class__.__name__}")
+                continue
             if v is not None:
                 assert v >= 0
                 assert isinstance(v, int)
@@ -306,6 +310,10 @@ class CapacityHints(JSONField):
         :return: self to support call chaining
         """
         for k, v in kwargs.items():
+            if forgiving and k not in self.__dict__:
+                # decoding: a field this version does not know, whatever its value type
+                fl.get_logger().warning(f"Ignoring unknown field {k} of {self.__class__.__name__}")
+                continue
             assert v is not None  # could be strings
             assert isinstance(v, str)
             try:
@@ -418,6 +426,10 @@ class Labels(JSONField):
         :return: self to support call chaining
         """
         for k, v in kwargs.items():
+            if forgiving and k not in self.__dict__:
+                # decoding: a field this version does not know, whatever its value type
+                fl.get_logger().warning(f"Ignoring unknown field {k} of {self.__class__.__name__}")
+                continue
             assert v is not None  # could be strings or lists of strings
             assert isinstance(v, str) or isinstance(v, list)
             try:
@@ -511,6 +523,10 @@ class ReservationInfo(JSONField):
         :return: self to support call chaining
         """
         for k, v in kwargs.items():
+            if forgiving and k not in self.__dict__:
+                # decoding: a field this version does not know, whatever its value type
+                fl.get_logger().warning(f"Ignoring unknown field {k} of {self.__class__.__name__}")
+                continue
             assert v is not None  # could be strings or lists of strings
             assert isinstance(v, str) or isinstance(v, list)
             try:
@@ -547,6 +563,10 @@ class StructuralInfo(JSONField):
         :return:
         """
         for k, v in kwargs.items():
+            if forgiving and k not in self.__dict__:
+                # decoding: a field this version does not know, whatever its value type
+                fl.get_logger().warning(f"Ignoring unknown field {k} of {self.__class__.__name__}")
+                continue
             assert v is not None  # could be strings or lists of strings
             assert isinstance(v, str) or isinstance(v, list)
             try:
@@ -580,6 +600,10 @@ class Location(JSONField):
         :return:
         """
         for k, v in kwargs.items():
+            if forgiving and k not in self.__dict__:
+                # decoding: a field this version does not know, whatever its value type
+                fl.get_logger().warning(f"Ignoring unknown field {k} of {self.__class__.__name__}")
+                continue
             assert v is not None
             assert isinstance(v, str) or isinstance(v, float)
             try:
@@ -636,6 +660,10 @@ class Flags(JSONField):
 
     def _set_fields(self, forgiving=False, **kwargs):
         for k, v in kwargs.items():
+            if forgiving and k not in self.__dict__:
+                # decoding: a field this version does not know, whatever its value type
+                fl.get_logger().warning(f"Ignoring unknown field {k} of {self.__class__.__name__}")
+                continue
             assert v is not None
             assert isinstance(v, bool)
             try:
